@@ -1,6 +1,7 @@
 package refsem
 
 import (
+	"strings"
 	"testing"
 
 	"github.com/paulsonkoly/calc/parser"
@@ -13,14 +14,14 @@ func TestUseBeforeDef(t *testing.T) {
 	}{
 		{"f = (n) -> {\n a = a+1\n}", false}, // Readme example: executed once, read before the assignment → global in both
 		{"g = () -> while k < 2 k = k + 1", true},
-		{"g = (p) -> {\n if p k = 1 else k = k + 1\n}", true},
-		{"g = (p) -> {\n if p k = 1\n k\n}", true},
+		{"g = (p) -> {\n if p k = 1 else k = k + 1\n}", false}, // the read in the else branch is decided at run time
+		{"g = (p) -> {\n if p k = 1\n k\n}", false}, // decided at run time (deferred)
 		{"g = (p) -> {\n k = 1\n while k < 3 k = k + 1\n k\n}", false},
 		{"f = () -> {\n x = 1\n g = () -> x\n x = 2\n g\n}", false},
 		{"f = () -> {\n g = () -> x\n x = 2\n g\n}", true},
 		{"f = () -> {\n g = () -> y\n x = 2\n g\n}", false},
 		{"f = (a) -> for i <- fromto(0, a) write(i)", false},
-		{"f = (a) -> {\n for i <- fromto(0, a) write(i)\n i\n}", true},
+		{"f = (a) -> {\n for i <- fromto(0, a) write(i)\n i\n}", false}, // decided at run time (deferred)
 		{"x = 1", false},
 		{"while k < 2 k = k + 1", false},
 		{"f = (n) -> if n <= 0 0 else n + f(n-1)", false},
@@ -33,6 +34,11 @@ func TestUseBeforeDef(t *testing.T) {
 		}
 		if got := UseBeforeDef(tr...); got != c.amb {
 			t.Errorf("%q: ambiguous=%v want %v", c.src, got, c.amb)
+		}
+		_, def := AnalyzeDefUse(tr...)
+		wantDef := strings.Contains(c.src, "if p k = 1") || strings.Contains(c.src, " i\n}")
+		if (len(def) > 0) != wantDef {
+			t.Errorf("%q: deferred=%v", c.src, def)
 		}
 	}
 }
